@@ -285,7 +285,8 @@ pub fn compare<N: Nondet, const I: usize, const CLS: u8>(n: &mut N) {
             expect = Some(Some(lex_cmp(&[ba[0] as u32, ba[1] as u32, ba[2] as u32], la, &[bb[0] as u32, bb[1] as u32, bb[2] as u32], lb)));
         }
         _ => {
-            let s: SD = any_state(n, 2, false, 2);
+            // only the type tags matter for a non-comparable pair: list-like values are empty here
+            let s: SD = any_state(n, 2, false, 0);
             d = s;
             l = 0;
             r = 1;
@@ -316,10 +317,15 @@ pub fn compare<N: Nondet, const I: usize, const CLS: u8>(n: &mut N) {
 /// Equal / NotEqual: left operand of concrete type LT (contents symbolic, children from the fixture's base
 /// cells), right operand of symbolic type or the left operand itself; all values restricted to the types
 /// C11 lists; result == ref_eq, nothing left behind
-pub fn equality<N: Nondet, const NEGATE: bool, const LT: usize>(n: &mut N) {
+pub fn equality<N: Nondet, const NEGATE: bool, const LT: usize, const RT: usize>(n: &mut N) {
     let instr = if NEGATE { Instruction::NotEqual } else { Instruction::Equal };
     let (mut d, left) = fixture(n, LT);
+    // RT == 20: right operand of symbolic type; otherwise of the concrete type TAGS[RT] (the structured
+    // left types traverse their operands: a symbolic right type does not finish, DESIGN.md probes 28, 30)
     let any = push_any(n, &mut d);
+    if RT < 20 {
+        n.assume(d.cells[any].tag == TAGS[RT]);
+    }
     let right = if n.bool() { left } else { any };
     let mut i = 0;
     while i < d.n_cells {
